@@ -29,7 +29,7 @@ Extraction "model.ml" peval_q geval_q lp_get_q lp_norm2_q lp_degree_q lp_parity_
   sym_full_q check_jac_f check_jac_df_col jac_df_col check_im_target im_target_norm
   opp_zero_q degree_guard gen_odd gen_takes_degree scaled_close same_poly_bases check_sup check_sup_mono check_exceeds cheb_at lipq
   fps_layout_q fp_prob_dists
-  check_trig_acc check_trig_acc_mono check_inv_acc_scaled check_trig_acc_hi check_trig_acc_hi_cheb check_inv_acc_hi_cheb
+  check_trig_acc check_trig_acc_mono check_inv_acc_scaled check_trig_acc_hi check_trig_acc_hi_cheb check_inv_acc_hi_cheb round_zeros_q
   check_infnorm_ub check_infnorm_lb
   check_fp_closed fp_closed_norm check_y_bracket.
 Cd "..".
